@@ -51,7 +51,7 @@ def replay_chunk(groups):
     with Scratch("c16-") as d:
         for gi, idxs in enumerate(groups):
             c0 = cases[idxs[0]]
-            ctx = ex.make_ctx(d, c0["lib"], c0["need"], prebody, f"g{gi}")
+            ctx = ex.make_ctx(d, c0["lib"], c0["need"], prebody, f"g{gi}", enwikt=c0.get("enw", True))
             try:
                 by_page = {}
                 for idx in idxs:
